@@ -365,6 +365,41 @@ def forgetElems (w : World) (es : List Elem) : World :=
     | .ref v => forget w.fuelOf w v
     | _ => w) w
 
+/-- the popped elements the caller disposes of: all but the containers in `keep` -/
+def disposed (keep : List SlabID) (es : List Elem) : List Elem :=
+  es.filter (fun e => match e.pay with
+    | .ref v => !keep.contains v
+    | _ => true)
+
+/-- `Array.PopIterate(fn)` where the caller keeps the popped containers `keep` alive for a while
+    (a popped inlined child is then an in-memory slab outside storage whose closure still names
+    `h`; a popped standalone child is simply detached).  `arrPopKeep w h [] = arrPop w h`. -/
+def arrPopKeep (w : World) (h : SlabID) (keep : List SlabID) (cx : Ctx) :
+    Except WErr (List Elem × World × Ctx) :=
+  match w.cont? h with
+  | some (.arr a) =>
+    let (es, a', cx) := a.popIterate cx
+    let w := w.setCont h (.arr a')
+    let w := w.setIdx h []
+    let w := w.forgetElems (disposed keep es)
+    match notifyParent w.fuelOf w h cx with
+    | .error e => .error e
+    | .ok (w, cx) => .ok (es, w, cx)
+  | _ => .error .unknownContainer
+
+/-- `OrderedMap.PopIterate(fn)` with kept containers -/
+def mapPopKeep (w : World) (h : SlabID) (keep : List SlabID) (cx : Ctx) :
+    Except WErr (List (MKey × Elem) × World × Ctx) :=
+  match w.cont? h with
+  | some (.map m) =>
+    let (kvs, m', cx) := m.popIterate cx
+    let w := w.setCont h (.map m')
+    let w := w.forgetElems (disposed keep (kvs.map (·.2)))
+    match notifyParent w.fuelOf w h cx with
+    | .error e => .error e
+    | .ok (w, cx) => .ok (kvs, w, cx)
+  | _ => .error .unknownContainer
+
 /-- `Array.PopIterate(fn)` through the handle of container `h` -/
 def arrPop (w : World) (h : SlabID) (cx : Ctx) : Except WErr (List Elem × World × Ctx) :=
   match w.cont? h with
